@@ -133,6 +133,17 @@ func inKind(f float64, k string) (interface{}, string, bool) {
 	return i, t, true
 }
 
+// quickCarrier: the reduced set of Go-kind carriers the quick tier injects through
+// Otto.Set (kind/number): the boundaries of the kinds otto also uses internally.
+var quickCarrier = map[string]bool{
+	"int32/-(2^31)": true, "int32/2^31-1": true, "int32/-1": true, "int32/0": true, "int32/1": true,
+	"uint32/2^32-1": true, "uint32/2^31": true, "uint32/0": true,
+	"int8/-128": true, "int8/127": true, "uint8/255": true, "uint8/128": true,
+	"int16/-32768": true, "uint16/65535": true,
+	"int64/-(2^63)": true, "int64/2^53": true, "int64/-(2^31)": true, "int64/2^31": true, "int64/2^32-1": true,
+	"int/-1": true, "int/-(2^31)": true, "uint64/2^63": true, "float32/-0": true, "float32/2^31": true,
+}
+
 // litIntText: the lexer carries a decimal integer literal that fits int64 as int64.
 func litIntText(f float64) string {
 	if math.IsNaN(f) || math.IsInf(f, 0) || f != math.Trunc(f) || f < 0 || f >= p2(2, 63) || (f == 0 && math.Signbit(f)) {
@@ -162,10 +173,10 @@ func buildV(thorough bool) []*val {
 		lm := conv.Num(n.f)
 		lm.IntText = litIntText(n.f)
 		add(&val{name: base + "#lit", base: base, carrier: "lit", m: lm, src: ox.JSNum(n.f)})
-		if !thorough {
-			continue
-		}
 		for _, k := range goKinds {
+			if !thorough && !quickCarrier[k+"/"+n.name] {
+				continue
+			}
 			g, txt, ok := inKind(n.f, k)
 			if !ok {
 				continue
